@@ -41,6 +41,7 @@ type c6All struct {
 	FnAB []scen.I2  `func:"Comp,returns=A B,required=false"`
 	FnS  []scen.I1  `func:"Comp,returns=*,required=false"`
 	FnB  scen.I2    `func:"Comp,returns=B,required=false"`
+	FnU  []scen.I1  `func:"Élan,required=false"`
 }
 
 // c6inner has the fields of c6All under an unexported type name; c6AllEmb embeds it by value
@@ -170,6 +171,8 @@ func c6Pred(kind string) func(t string) bool {
 		return func(t string) bool { return imp["I1"][t] && res(t) }
 	case "FnB":
 		return func(t string) bool { return imp["I2"][t] && scen.CompResult[t] == "B" }
+	case "FnU":
+		return func(t string) bool { return imp["I1"][t] && scen.HasElan[t] }
 	}
 	panic(kind)
 }
@@ -436,7 +439,7 @@ func c06Run(c *core.Ctx) {
 				if cs.Preset {
 					dA, dB := &scen.TA{Nm: scen.Nm{Id: "decoy"}}, &scen.TB{Nm: scen.Nm{Id: "decoy"}}
 					*call = c6All{PA: dA, F1: dB, F2: dB, F12: dB, SPA: []*scen.TA{dA}, S1: []scen.I1{dB}, S2: []scen.I2{dB}, SA: []any{dB}, A: dB,
-						FnP: dA, Fn1: []scen.I1{dB}, FnA: []scen.I2{dB}, FnAB: []scen.I2{dB}, FnS: []scen.I1{dB}, FnB: dB}
+						FnP: dA, Fn1: []scen.I1{dB}, FnA: []scen.I2{dB}, FnAB: []scen.I2{dB}, FnS: []scen.I1{dB}, FnB: dB, FnU: []scen.I1{dB}}
 				}
 				if cs.Embedded {
 					emb := &c6AllEmb{}
@@ -673,7 +676,7 @@ func c06Run(c *core.Ctx) {
 				single("F12", h.F12, adm("F12")) && slice("SPA", scen.IdsOf(h.SPA), adm("SPA")) && slice("S1", scen.IdsOf(h.S1), adm("S1")) &&
 				slice("S2", scen.IdsOf(h.S2), adm("S2")) && single("FnP", h.FnP, adm("FnP")) && slice("Fn1", scen.IdsOf(h.Fn1), adm("Fn1")) &&
 				slice("FnA", scen.IdsOf(h.FnA), adm("FnA")) && slice("FnAB", scen.IdsOf(h.FnAB), adm("FnAB")) && slice("FnS", scen.IdsOf(h.FnS), adm("FnS")) &&
-				single("FnB", h.FnB, adm("FnB"))
+				single("FnB", h.FnB, adm("FnB")) && slice("FnU", scen.IdsOf(h.FnU), adm("FnU"))
 			if !okAll {
 				return
 			}
